@@ -14,6 +14,16 @@ CHECKS = {
             "the first write may normalise; only a non-idempotent normalisation or a read/write asymmetry counts",
         ],
     },
+    "C02": {
+        "harness": "c02",
+        "level": "exploration",
+        "floor": {"quick": 500, "thorough": 1000},
+        "timeout": {"quick": 1500, "thorough": 7200},
+        "assumptions": [
+            "queries are the public read-only API listed in harness/common/battery.hpp; empty entries of reference arrays are not content (every write drops them)",
+            "for default saves the first save may permute and prune (C04): the before/after comparison uses the order-insensitive battery restricted to blocks reachable from the root, without bounds",
+        ],
+    },
     "C05": {
         "harness": "c05",
         "level": "exploration",
